@@ -2,6 +2,7 @@
 # trymutant.sh <PID> <patch.diff> <demo.py> [tier]   : confirm a seeded change and run our check against it.
 # Uses a throw-away worktree of /repo under /tmp/mutcheck (removed afterwards). Nothing is committed anywhere.
 set -u
+export OMP_NUM_THREADS=2 MKL_NUM_THREADS=2
 PID=$1; PATCH=$(readlink -f "$2"); DEMO=$(readlink -f "$3"); TIER=${4:-quick}
 W=/tmp/mutcheck/$PID.$$
 mkdir -p /tmp/mutcheck
